@@ -73,10 +73,10 @@ def _(inp):
     url = inp['url']
     if url is not None and ('is_local' in inp):
         # solver model: strings are abstract; map onto a real URL of the same class and the same containment relation
-        b = 'file:///x/sand' if inp.get('base') is not None else None
+        root = 'http://example.test/x' if inp.get('is_remote') else 'file:///x'
+        b = root + '/sand' if inp.get('base') is not None else None
         rel = 'eq' if url == inp.get('base') else 'in' if inp.get('base') is not None and url.startswith(inp['base'] + '/') else 'pre' if inp.get('base') and url.startswith(inp['base']) else 'out'
-        real = {'eq': 'file:///x/sand', 'in': 'file:///x/sand/a.xsd', 'pre': 'file:///x/sand_evil/a.xsd', 'out': 'file:///y/a.xsd'}[rel]
-        url = 'http://example.test/a.xsd' if inp.get('is_remote') else real
+        url = {'eq': root + '/sand', 'in': root + '/sand/a.xsd', 'pre': root + '/sand_evil/a.xsd', 'out': root + '/y/a.xsd'}[rel]
         r._base_url = b
     try: r.access_control(url); got = 'returns'
     except XMLResourceBlocked: got = 'blocked'
@@ -95,6 +95,8 @@ def _(tier, rng):
         for u in urls:
             for b in (base, base + '/', base + '//'):
                 yield dict(allow=m, url=u, base=b)
+        for u in ('http://example.test/x/sand/a.xsd', 'http://example.test/x/sand', 'http://example.test/x/sand_evil/a.xsd'):
+            yield dict(allow=m, url=u, base='http://example.test/x/sand')
 
 
 # ------------------------------------------------------------------ is_local_scheme
